@@ -373,9 +373,9 @@ HDR_POOL = [
 # user headers with the reserved names in the spellings _make_header strips (lower / UPPER case) or overwrites (_DTYPE,
 # _VERSION), and lower-case _dtype / _version, which survive harmlessly: in particular the header dicts that
 # sfile.read(other_file, header=True) returns for a file of the OTHER form (the pass-through idiom
-# `data, hdr = sfile.read(f1, header=True); sfile.write(f2, data, header=hdr)`).  Mixed-case spellings (_Delim, _Size)
-# are not generated: on HEAD they survive into the file and are then found by the case-insensitive _match_key
-# (reported; outside the statement as C01's user_key_ok already says).
+# `data, hdr = sfile.read(f1, header=True); sfile.write(f2, data, header=hdr)`), and mixed-case spellings (_Size, _Delim:
+# they survived into the file and were found by the case-insensitive _match_key until 04e3f20; witness
+# corpus/C03/fixed-mixed-case-size-key.json).
 RESERVED_HDRS = [
     {"_DELIM": ",", "_DTYPE": [("x", "i4"), ("y", "f8", (2,))], "_VERSION": "1.0", "_SIZE": 5, "user": "from a csv file"},
     {"_DELIM": "\t", "_DTYPE": [("id", "i8")], "_VERSION": "1.0", "_SIZE": 1, "k": "THE END"},
@@ -385,6 +385,9 @@ RESERVED_HDRS = [
     {"_DTYPE": "f8", "_VERSION": "0.9", "_NROWS": 4, "_SHAPE": (2, 2), "_HAS_FIELDS": False},
     {"_dtype": [("q", "f8")], "_version": "0.5", "_SIZE": 1, "_DELIM": ",", "z": None},
     {"_SIZE": 0}, {"_DELIM": ","}, {"_delim": None},
+    # mixed-case spellings (stripped in any spelling since 04e3f20; the header is read case-insensitively)
+    {"_Size": 77, "user": 1}, {"_Delim": ",", "_Nrows": 3}, {"_sIZE": 5, "_dELIM": "\t", "_Shape": (2,), "_Has_Fields": True, "k": "v"},
+    {"_Dtype": "f8", "_Version": "2.0", "_Size": 1},
 ]
 
 
@@ -565,7 +568,7 @@ def adversarial(r, textual, dl):
     cs.append(b.case("adv:interleaved:" + tag))
     # headers carrying reserved names (pass-through of the header of a file of the other form): on creation (function and
     # class form, and through an object opened 'r+' on a missing path), on appends and later writes (ignored)
-    for i, h in enumerate(RESERVED_HDRS[:7]):
+    for i, h in enumerate(RESERVED_HDRS[:7] + RESERVED_HDRS[-4:]):
         b = B()
         how = i % 3
         if how == 0:
@@ -1326,6 +1329,68 @@ def source_tie(ctx):
                       found_input=False)
 
 
+def gen_tie_step(ctx):
+    """DESIGN 4.1: the decisions of the anchored code are TRANSLATED from the working tree into C03/Gen.v (c03_translate.generate)
+    and the tie lemmas of C03/GenTie.v (Gen.x = what Model.v does) are re-checked.  The committed Gen.v is the translation of
+    the last integrated tree: identical text -> the committed GenTie.vo is (re)built; different text -> Gen.v and GenTie.v are
+    compiled in a scratch directory.  Nothing else depends on this step: the correspondence run always follows (no masking)."""
+    import re
+    import shutil
+    import subprocess
+    from . import c03_translate
+    tdir = os.path.join(core.COQDIR, "theories", "C03")
+    tie_src = open(os.path.join(tdir, "GenTie.v")).read()
+    lemmas = [(m.group(1), tie_src[:m.start()].count("\n") + 1) for m in re.finditer(r"^Lemma (tie_\w+)", tie_src, re.M)]
+    try:
+        txt = c03_translate.generate(ctx.impl)
+    except Exception as e:  # noqa
+        ctx.obligation("C03/Gen.v regenerated from esutil/sfile.py + records.cpp (translator, fail-closed)", False, str(e))
+        for nm, _ in lemmas:
+            ctx.obligation("tie lemma GenTie.%s on the regenerated Gen.v" % nm, False, "translation failed")
+        ctx.violation("tie to the source broken: the translator does not accept the anchored code any more (%s); the correspondence "
+                      "below still runs against the hand model" % str(e)[:300],
+                      {"kind": "translation", "error": str(e), "no_longer_checks": "C03/Gen.v = source; GenTie lemmas %s" % [n for n, _ in lemmas]},
+                      found_input=False)
+        return
+    same = txt == open(os.path.join(tdir, "Gen.v")).read()
+    ctx.obligation("C03/Gen.v regenerated from esutil/sfile.py + records.cpp (translator, fail-closed)%s" % (
+        "" if same else " [differs from the committed translation]"), True)
+    if same:
+        ok, log = core.coq_make(["theories/C03/GenTie.vo"])
+        bad_line = None
+    else:
+        work = os.path.join(ctx.work, "gen")
+        os.makedirs(work, exist_ok=True)
+        open(os.path.join(work, "Gen.v"), "w").write(txt)
+        open(os.path.join(work, "GenTie.v"), "w").write(tie_src.replace("From EsVerif.C03 Require Import Gen.", "From C03Scratch Require Import Gen."))
+        core.coq_make(["theories/C03/GenLib.vo", "theories/C03/Lemmas.vo"])
+        flags = core.COQFLAGS + ["-Q", work, "C03Scratch"]
+        ok, log, bad_line = True, "", None
+        for f in ("Gen.v", "GenTie.v"):
+            rc, out = core.coqc_file(os.path.join(work, f), 600, flags)
+            if rc != 0:
+                ok, log = False, out
+                m = re.search(r'File "[^"]*%s", line (\d+)' % re.escape(f), out)
+                bad_line = (f, int(m.group(1))) if m else (f, 0)
+                break
+    failing = None
+    if not ok:
+        if bad_line and bad_line[0] == "GenTie.v":
+            failing = [nm for nm, ln in lemmas if ln <= bad_line[1]][-1:] or None
+            failing = failing[0] if failing else None
+    for nm, ln in lemmas:
+        # lemmas after the first failing one were not reached
+        state = ok or (failing is not None and ln < dict(lemmas)[failing])
+        ctx.obligation("tie lemma GenTie.%s on the regenerated Gen.v" % nm, state, "" if state else log[-300:])
+    ctx.count("tie lemmas (Gen.v = model)", len(lemmas))
+    if not ok:
+        ctx.violation("tie to the source broken: the decisions translated from the working tree are not the ones the model makes: %s; "
+                      "the correspondence below still runs against the hand model" % (
+                          ("lemma GenTie.%s no longer holds" % failing) if failing else "the regenerated Gen.v / GenTie.v does not compile"),
+                      {"kind": "translation", "failing_lemma": failing, "log_tail": log[-1500:], "generated": txt if not same else None,
+                       "no_longer_checks": "GenTie.%s (Gen = Model)" % (failing or "*")}, found_input=False)
+
+
 class Witness(History):
     """the witnesses of one repaired defect (corpus/C03/fixed-*.json): an entry of its own, so that a
     regression of each defect is reported on its own VIOLATION line"""
@@ -1350,7 +1415,7 @@ def coqchk_step(ctx):
 
 
 ENTRIES = [Witness("witness_append_missing"), Witness("witness_incompatible_binary_append"), Witness("witness_read_while_open")] \
-    + ([Witness("witness_same_handle_read")] if SAME_HANDLE_READS else []) + [History()]
+    + ([Witness("witness_same_handle_read")] if SAME_HANDLE_READS else []) + [Witness("witness_mixed_case_size_key"), History()]
 
 TRUSTED = [
     "Coq 8.16.1 kernel (coqc, vm_compute; no native_compute); every C03 theorem is closed under the global context (no axioms)",
@@ -1394,6 +1459,12 @@ def run(ctx, replay=None):
         source_tie(ctx)
         if not ctx.quick():
             coqchk_step(ctx)
+    if replay is None:
+        try:
+            gen_tie_step(ctx)
+        except Exception as e:  # noqa  (never let the tie step mask the correspondence)
+            ctx.obligation("tie step ran", False, str(e))
+            ctx.violation("the tie step of C03 crashed: %s" % str(e)[:300], {"kind": "translation", "error": str(e)}, found_input=False)
     # histories are long terms: evaluate them in small shards, in parallel (the shard size of
     # runner.run_entry is not a parameter; it is narrowed for this process only)
     orig = core.coq_eval
